@@ -244,6 +244,84 @@ def _strict(ctx, rep, cm):
                     [res[k] for k in ("absent", "lower", "equal", "higher")]),
                 witness=None if ok else res)
     rep.count("re_emission_guards", n, 2)
+    # a guard on a dedup table whose guarded block emits without recording: the next
+    # equal value passes the same check
+    dedup = set()
+    for a in ast.walk(f):
+        if isinstance(a, ast.Assign) and len(a.targets) == 1 and isinstance(a.targets[0], ast.Subscript) \
+                and isinstance(a.targets[0].value, ast.Name):
+            dedup.add(a.targets[0].value.id)
+    for node in ast.walk(f):
+        if not isinstance(node, ast.If):
+            continue
+        used = {x.id for x in ast.walk(node.test) if isinstance(x, ast.Name)} & dedup
+        reads = any(isinstance(c_, ast.Call) and isinstance(c_.func, ast.Attribute) and c_.func.attr == "get"
+                    and isinstance(c_.func.value, ast.Name) and c_.func.value.id in used for c_ in ast.walk(node.test)) \
+            or any(isinstance(c_, ast.Compare) and any(isinstance(o, (ast.In, ast.NotIn)) for o in c_.ops)
+                   and any(isinstance(x, ast.Name) and x.id in used for x in ast.walk(c_)) for c_ in ast.walk(node.test))
+        if not used or not reads:
+            continue
+        emits = [y for b in node.body for y in ast.walk(b) if isinstance(y, ast.Yield)] + \
+            [c_ for b in node.body for c_ in ast.walk(b) if isinstance(c_, ast.Call) and
+             isinstance(c_.func, ast.Attribute) and c_.func.attr in ("append", "add")]
+        records = [a for b in node.body for a in ast.walk(b) if isinstance(a, ast.Assign)
+                   and isinstance(a.targets[0], ast.Subscript) and isinstance(a.targets[0].value, ast.Name)
+                   and a.targets[0].value.id in used]
+        if emits and not records:
+            rep.violated("strict-improvement", "{}::_ctparse::guard on {} without record".format(cm.rel, sorted(used)[0]),
+                         cm.where(node), "a value passes the check on {} and is emitted/collected, but the table "
+                         "is not updated in the same block: an equal value met before the update passes "
+                         "too".format(sorted(used)[0]))
+    # the depth cut keeps the best scored: a sort of the stack lies between the last
+    # assignment of scores and every cut
+    events = []
+    for st in ast.walk(f):
+        ln = getattr(st, "lineno", None)
+        if ln is None:
+            continue
+        if isinstance(st, ast.Assign) and isinstance(st.value, ast.Subscript) and isinstance(st.value.slice, ast.Slice) \
+                and "max_stack_depth" in norm(st.value.slice) and norm(st.targets[0]) == norm(st.value.value):
+            events.append((ln, "cut", st))
+        elif isinstance(st, ast.Expr) and isinstance(st.value, ast.Call) and isinstance(st.value.func, ast.Attribute) \
+                and st.value.func.attr == "sort":
+            events.append((ln, "sort", st))
+        elif isinstance(st, ast.Assign) and isinstance(st.targets[0], ast.Attribute) and st.targets[0].attr == "score":
+            events.append((ln, "score", st))
+    events.sort(key=lambda e: e[0])
+    ncut = 0
+    for i, (ln, kind, st) in enumerate(events):
+        if kind != "cut":
+            continue
+        ncut += 1
+        # nearest preceding sort/score event in the same loop nesting (textual order)
+        prev = [e for e in events[:i] if e[1] in ("sort", "score") and _same_loop(e[2], st)]
+        ok = bool(prev) and prev[-1][1] == "sort"
+        rep.add("selection", "{}::_ctparse::depth cut after sort [{}]".format(cm.rel, ncut), cm.where(st), ok,
+                "" if ok else "the stack is cut to max_stack_depth without a sort after the scores were "
+                "assigned: the cut keeps arbitrary, not the best scored, elements")
+    rep.count("depth_cuts", ncut, 2)
+
+
+def _same_loop(a, b):
+    def loop_of(n):
+        cur = getattr(n, "_parent", None)
+        while cur is not None:
+            if isinstance(cur, (ast.While, ast.For)):
+                return cur
+            if isinstance(cur, ast.FunctionDef):
+                return None
+            cur = getattr(cur, "_parent", None)
+        return None
+    la, lb = loop_of(a), loop_of(b)
+    if la is lb:
+        return True
+    # a score assigned inside an inner loop of the same enclosing loop counts
+    cur = la
+    while cur is not None:
+        cur = loop_of(cur)
+        if cur is lb:
+            return True
+    return lb is None and la is not None and False
 
 
 def _subst(node, mapping):
